@@ -1,6 +1,7 @@
 package verifsim
 
 import (
+	"crypto/sha256"
 	"encoding/json"
 	"fmt"
 	"os"
@@ -88,7 +89,7 @@ func TestSim(t *testing.T) {
 		job.Workers = 1
 	}
 	if job.MaxViol == 0 {
-		job.MaxViol = 4
+		job.MaxViol = 40
 	}
 	theT = t
 	worldInit()
@@ -119,12 +120,7 @@ func doRuns(e *Engine, job *Job, out *WorkerOut, start time.Time) {
 		out.SeedDigests = map[string]string{}
 	}
 	deadline := start.Add(time.Duration(job.BudgetS * float64(time.Second)))
-	for i := job.Worker; i < job.MaxRuns; i += job.Workers {
-		if job.BudgetS > 0 && time.Now().After(deadline) {
-			break
-		}
-		seed := Mix(job.BaseSeed, job.Prop, uint64(i))
-		res := execute(e, job.Prop, job.Tier, seed, NewGenTape(seed), job.Opt)
+	handle := func(i int, seed uint64, res *Result, opt map[string]string) {
 		out.Runs++
 		out.Steps += res.Steps
 		out.SimTimeS += res.SimTime.Seconds()
@@ -136,10 +132,12 @@ func doRuns(e *Engine, job *Job, out *WorkerOut, start time.Time) {
 				out.HarnessErrors = append(out.HarnessErrors, fmt.Sprintf("seed=%d: %s", seed, res.HarnessErr))
 			}
 			out.Stats["harness_errors"]++
-			continue
+			return
 		}
 		if out.SeedDigests != nil {
-			out.SeedDigests[fmt.Sprint(i)] = res.Digest
+			if i >= 0 {
+				out.SeedDigests[fmt.Sprint(i)] = res.Digest
+			}
 		}
 		digs[res.ShapeDig[:16]] = true
 		if res.Nontrivial {
@@ -156,16 +154,36 @@ func doRuns(e *Engine, job *Job, out *WorkerOut, start time.Time) {
 		if res.Viol != nil {
 			if res.Viol.Prop != job.Prop {
 				out.Foreign[res.Viol.Sig]++
-				continue
+				return
 			}
 			out.Stats["violating_runs"]++
 			if seenSig[res.Viol.Sig] || len(out.Violations) >= job.MaxViol {
-				continue
+				return
 			}
 			seenSig[res.Viol.Sig] = true
 			// shrinking is a separate stage (mode "shrink"), so that the search budget is spent searching
-			rf := writeReplay(job, e, seed, res, len(res.Tape), fmt.Sprintf("tmp-w%d-", job.Worker))
+			j2 := *job
+			j2.Opt = opt
+			rf := writeReplay(&j2, e, seed, res, len(res.Tape), fmt.Sprintf("tmp-w%d-%d-", job.Worker, out.Runs))
 			out.Violations = append(out.Violations, ViolOut{Violation: res.Viol, Seed: seed, Replay: rf, TapeLen: len(res.Tape), OrigLen: len(res.Tape)})
+		}
+	}
+	for i := job.Worker; i < job.MaxRuns; i += job.Workers {
+		if job.BudgetS > 0 && time.Now().After(deadline) {
+			break
+		}
+		seed := Mix(job.BaseSeed, job.Prop, uint64(i))
+		res := execute(e, job.Prop, job.Tier, seed, NewGenTape(seed), job.Opt)
+		handle(i, seed, res, job.Opt)
+		for _, sub := range res.SubRuns {
+			if job.BudgetS > 0 && time.Now().After(deadline.Add(time.Duration(job.BudgetS*float64(time.Second)))) {
+				out.Stats["subruns_cut_by_budget"]++
+				break
+			}
+			opt := withOpt(job.Opt, "sub", sub)
+			sres := execute(e, job.Prop, job.Tier, seed, NewGenTape(seed), opt)
+			out.Stats["subruns"]++
+			handle(-1, seed, sres, opt)
 		}
 	}
 	for d := range digs {
@@ -206,7 +224,8 @@ func writeReplay(job *Job, e *Engine, seed uint64, res *Result, origLen int, pre
 		rf.Labels = res.Labels
 	}
 	_ = os.MkdirAll(job.ReplayDir, 0o755)
-	p := filepath.Join(job.ReplayDir, fmt.Sprintf("%s%s-%s-%d.json", prefix, job.Prop, e.Name, seed))
+	sh := sha256.Sum256([]byte(res.Viol.Sig))
+	p := filepath.Join(job.ReplayDir, fmt.Sprintf("%s%s-%s-%d-%x.json", prefix, job.Prop, e.Name, seed, sh[:3]))
 	b, _ := json.MarshalIndent(rf, "", " ")
 	_ = os.WriteFile(p, b, 0o644)
 	return p
